@@ -776,6 +776,22 @@ func (h *c17h) genTrace(g *Rng) {
 	h.r.Trace()
 }
 
+var c17Witness = []string{
+	"reset 3 3 3 2 2592000 86400 1000000000000000000 0 1000000000000000000 9000000000000000000,8000000000000000000,7000000000000000000,6000000000000000000,5000000000000000000 9000000000000000000,8000000000000000000,7000000000000000000,6000000000000000000,5000000000000000000 1704067200 1 1",
+	"fund 0 100000000000000000000",
+	"fund 1 100000000000000000000",
+	"rollapp 1 1 1 0",
+	"reg 0 0 1 9000000000000000000 0",
+	"ura 0 0 1 0 0 1:1",
+	"v",
+	"rev 1:0 1",
+	"res 0 0 l0",
+	"rollapp 1 2 0 1",
+	"v",
+	"rev 0:0 2",
+	"res 0 0 l1",
+}
+
 func TestC17(t *testing.T) {
 	r := NewRun(t, "C17")
 	defer r.Close()
@@ -792,6 +808,12 @@ func TestC17(t *testing.T) {
 		r.Trace()
 		return
 	}
+	// the Lean counterexamples of Props/C17 (resolve_agree_counterexample_*), replayed on the real code
+	for _, l := range c17Witness {
+		r.Emit(l, h.exec(l))
+	}
+	r.Hit("witness-trace")
+	r.Trace()
 	n := r.N(400, 4500)
 	for i := 0; i < n; i++ {
 		h.genTrace(r.Rng.Fork())
